@@ -507,6 +507,86 @@ def job_final_stats(P, taps, Wb, npol, bits):
     return recs
 
 
+def job_unit_noise(P, taps, W):
+    """the unit-noise deviations by which the synthetic block is scaled are those of THIS filterbank (its own window,
+    its own channeliser) applied to the unit-variance draws: real estimate_channelized_stds with a symbolic window and
+    the k-th normal draw of seed s as Z(s, k)"""
+    from props.C10 import GenStub, ZF
+    recs = []
+    tag = f"C14:unit-noise:{(P, taps, W)}"
+    px = npx.NPProxy(rng_factory=lambda seed=None: GenStub(seed))
+    ws = [z3.Real(f'w_{m}') for m in range(taps * P)]
+    with volt_patches(proxy=px):
+        fb = PF.PolyphaseFilterbank(num_taps=taps, num_branches=P, window_fn='blackman')
+        fb.window = npx.sarr([Sym(w) for w in ws])
+        x_before = fb.cache
+        res = fb.estimate_channelized_stds(factor=W * taps, seed=9)
+        kept = fb.channelized_stds
+        cache_after = fb.cache
+    zs = [(ZF(RV(9), RV(k)), RV(0)) for k in range(W * taps * P)]
+    nspec = (W - 1) * taps
+    want = []
+    for part in (0, 1):
+        vals = [pfb_spec(zs, ws, n, k, P, taps)[part] for n in range(nspec) for k in range(P // 2)]
+        mu = sum(vals[1:], vals[0]) / len(vals)
+        want.append(sum([(v - mu) * (v - mu) for v in vals[1:]], (vals[0] - mu) * (vals[0] - mu)) / len(vals))
+    pl = dict(fn='unit_noise', P=P, taps=taps, W=W)
+    if len(res) != 2 or kept is not res and list(kept) != list(res):
+        recs.append(q(tag, 'sat'))
+        recs.append(cex('C14:unit-noise', 'estimate_channelized_stds does not return / keep two deviations', pl, name=tag))
+        return recs
+    dis = []
+    for part in (0, 1):
+        e = res[part]
+        rad = getattr(e, 'radicand', None)
+        got = rad if rad is not None else lift(e) * lift(e)
+        d = z3.simplify(got - want[part], som=True)
+        if not (z3.is_rational_value(d) and d.numerator_as_long() == 0):
+            dis.append(d != 0)
+    t0 = time.time()
+    r, m = core.check(list(core.GLOBAL_SIDE) + ([z3.Or(*dis)] if dis else [z3.BoolVal(False)]), timeout_ms=120000)
+    recs.append(q(tag, r, ms=(time.time() - t0) * 1000, by_solver=len(dis)))
+    if r == 'sat':
+        recs.append(cex('C14:unit-noise', "the unit-noise deviations are not those of the filterbank's own window and channeliser applied to the draws", pl, name=tag))
+    # twin: against the same definition with another window (first coefficient doubled) the equality must fail
+    vals_t = [pfb_spec(zs, [3 * ws[0], ws[1] + 1] + ws[2:], n, k, P, taps)[0] for n in range(nspec) for k in range(P // 2)]
+    mu_t = sum(vals_t[1:], vals_t[0]) / len(vals_t)
+    want_t = sum([(v - mu_t) * (v - mu_t) for v in vals_t[1:]], (vals_t[0] - mu_t) * (vals_t[0] - mu_t)) / len(vals_t)
+    rad0 = getattr(res[0], 'radicand', None)
+    # (asked at one pinned instance of window and draws: the general non-linear query takes minutes or comes back unknown)
+    pin = [w == m + 1 for m, w in enumerate(ws)] + [zr == ((k * k * 3 + 5 * k) % 11) - 4 for k, (zr, _) in enumerate(zs)]
+    rt, _ = core.check(list(core.GLOBAL_SIDE) + pin + [(rad0 if rad0 is not None else lift(res[0]) * lift(res[0])) != want_t], timeout_ms=30000)
+    recs.append(q(tag + ':twin', rt, expect='sat'))
+    same = (x_before is None and cache_after is None)
+    r0, _ = core.check([RV(int(same)) != 1])
+    recs.append(q(tag + ':cache-untouched', r0, trivial=True))
+    if not same:
+        recs.append(cex('C14:unit-noise', 'the estimate disturbed the sample cache', pl, name=tag + ':cache-untouched'))
+    return recs
+
+
+def replay_unit_noise(p):
+    """real code: the estimate of a filterbank with a non-default window equals the deviation of its own definition
+    (window from firwin with that window function) on the same seeded draws"""
+    import scipy.signal
+    from setigen.voltage import polyphase_filterbank as pf
+    P, taps = max(p['P'], 8), max(p['taps'], 4)
+    msgs = []
+    for wfn in ('blackman', 'boxcar', 'hamming'):
+        fb = pf.PolyphaseFilterbank(num_taps=taps, num_branches=P, window_fn=wfn)
+        got = np.asarray(fb.estimate_channelized_stds(factor=200, seed=3))
+        x = np.random.default_rng(3).standard_normal(200 * P)
+        w = scipy.signal.firwin(taps * P, cutoff=1.0 / P, window=wfn, scale=True) * taps * P
+        nwin = len(x) // (taps * P)
+        xw = x[:nwin * taps * P].reshape(-1, P)
+        out = np.array([sum(w[t * P:(t + 1) * P] * xw[n + t] for t in range(taps)) for n in range((nwin - 1) * taps)])
+        spec = np.fft.fft(out, axis=1)[:, :P // 2] / P ** 0.5
+        want = np.array([spec.real.std(), spec.imag.std()])
+        if got.shape != (2,) or not np.allclose(got, want, rtol=1e-9):
+            msgs.append(f"window {wfn}: unit-noise deviations {got.tolist()}, the filterbank's own channeliser gives {want.tolist()}")
+    return bool(msgs), '; '.join(msgs) or 'unit-noise deviations follow the filterbank in use'
+
+
 # ------------------------------------------------------------------ concrete oracle
 def replay_inject(p):
     """real files: write an input recording with known bytes, inject a zero synthetic signal and a tone, compare
@@ -682,7 +762,7 @@ def replay_two(p):
     return nd > 0, f"second recording (digitize={not p['first_digitize']}) differs in {nd} bytes from the same recording on a fresh backend"
 
 
-REPLAYS = {'inject': replay_inject, 'two': replay_two, 'retry': replay_retry}
+REPLAYS = {'inject': replay_inject, 'two': replay_two, 'retry': replay_retry, 'unit_noise': replay_unit_noise}
 
 
 def main():
@@ -709,6 +789,8 @@ def main():
             jobs.append(('job_inject', (P, taps, 2, 2, 2, 1, 8, 1, n_in, bpf, directio, n_req, False)))
     for (npol, bits) in ((1, 8), (2, 8), (1, 4), (2, 4)):
         jobs.append(('job_final_stats', (4, 2, 2, npol, bits)))
+    for (P_, taps_, W_) in ((4, 2, 2), (2, 3, 3), (8, 1, 2)):
+        jobs.append(('job_unit_noise', (P_, taps_, W_)))
     for fd in (True, False):
         jobs.append(('job_two_recordings', (fd,)))
     for (fail_at, bpf, n_in) in ((1, 4, 4), (3, 4, 4), (5, 2, 4), (2, 2, 3)):
